@@ -14,7 +14,10 @@ package main
 
 import (
 	"bytes"
+	"compress/lzw"
+	"compress/zlib"
 	"crypto/sha256"
+	"encoding/ascii85"
 	"encoding/hex"
 	"encoding/json"
 	"fmt"
@@ -415,7 +418,7 @@ func cmdFonts() {
 
 // ------------------------------------------------------------------------------------------------ Binding 2
 
-var opKinds = []string{"read", "validate", "optimize", "stamp", "fill", "encrypt", "merge", "split", "rmpages", "ustamp", "fnames", "fwidth", "freload"}
+var opKinds = []string{"read", "validate", "optimize", "stamp", "fill", "encrypt", "merge", "split", "rmpages", "ustamp", "pdfstamp", "imgstamp", "content", "fnames", "fwidth", "freload"}
 
 // freeing: operations that free objects of the context they work on (merge frees the appended catalog in the destination,
 // page removal and optimization free the dropped objects)
@@ -456,15 +459,157 @@ func headlessDoc() []byte {
 
 // applicable: which (operation, input index) pairs exist
 func applicable(op string, ii int) bool {
+	if ii >= 4 { // the filter documents: decoding of their page content is what matters
+		return op == "content" || op == "optimize" || op == "split"
+	}
 	switch {
+	case op == "content":
+		return false
 	case op == "fill" || strings.HasPrefix(op, "f"):
 		return ii == 0
 	case op == "ustamp":
 		return ii == 1
+	case op == "pdfstamp":
+		return ii == 0 || ii == 1 || ii == 3
+	case op == "imgstamp":
+		return ii == 0 || ii == 1
 	case op == "rmpages":
 		return ii == 0 || ii == 3 // needs more than one page
 	}
 	return true
+}
+
+// ---- hand-built documents whose page content streams use every stream filter (encoders independent of pdfcpu)
+
+func encHex(b []byte) []byte {
+	var o bytes.Buffer
+	for i, c := range b {
+		fmt.Fprintf(&o, "%02X", c)
+		if i%32 == 31 {
+			o.WriteByte('\n')
+		}
+	}
+	o.WriteByte('>')
+	return o.Bytes()
+}
+
+func enc85(b []byte) []byte {
+	var o bytes.Buffer
+	e := ascii85.NewEncoder(&o)
+	e.Write(b)
+	e.Close()
+	o.WriteString("~>")
+	return o.Bytes()
+}
+
+func encRunLength(b []byte) []byte {
+	var o bytes.Buffer
+	for i := 0; i < len(b); {
+		j := i
+		for j < len(b) && b[j] == b[i] && j-i < 128 {
+			j++
+		}
+		if j-i >= 3 { // a run
+			o.WriteByte(byte(257 - (j - i)))
+			o.WriteByte(b[i])
+			i = j
+			continue
+		}
+		k := i
+		for k < len(b) && k-i < 128 && !(k+2 < len(b) && b[k] == b[k+1] && b[k] == b[k+2]) {
+			k++
+		}
+		o.WriteByte(byte(k - i - 1))
+		o.Write(b[i:k])
+		i = k
+	}
+	o.WriteByte(128)
+	return o.Bytes()
+}
+
+func encLZW(b []byte) []byte { // compress/lzw = PDF LZW with /EarlyChange 0
+	var o bytes.Buffer
+	w := lzw.NewWriter(&o, lzw.MSB, 8)
+	w.Write(b)
+	w.Close()
+	return o.Bytes()
+}
+
+func encFlate(b []byte) []byte {
+	var o bytes.Buffer
+	w := zlib.NewWriter(&o)
+	w.Write(b)
+	w.Close()
+	return o.Bytes()
+}
+
+// pngUp applies the PNG "Up" predictor (rows of cols bytes); the data is padded with blanks to full rows.
+func pngUp(b []byte, cols int) []byte {
+	for len(b)%cols != 0 {
+		b = append(b, ' ')
+	}
+	prev := make([]byte, cols)
+	var o []byte
+	for r := 0; r < len(b); r += cols {
+		o = append(o, 2)
+		for c := 0; c < cols; c++ {
+			o = append(o, b[r+c]-prev[c])
+		}
+		prev = b[r : r+cols]
+	}
+	return o
+}
+
+// filterDoc: 7 pages, one per filter (chain); every page draws its own marker and tag-specific filler text.
+func filterDoc(tag string, lines int) []byte {
+	d := &rawpdf.Doc{}
+	cat, pages := d.Reserve(), d.Reserve()
+	font := d.Add("<< /Type /Font /Subtype /Type1 /BaseFont /Helvetica >>")
+	type enc struct {
+		dict string
+		f    func([]byte) []byte
+	}
+	encs := []enc{
+		{"/Filter /ASCIIHexDecode", encHex},
+		{"/Filter /ASCII85Decode", enc85},
+		{"/Filter /RunLengthDecode", encRunLength},
+		{"/Filter /LZWDecode /DecodeParms << /EarlyChange 0 >>", encLZW},
+		{"/Filter /FlateDecode", encFlate},
+		{"/Filter /FlateDecode /DecodeParms << /Predictor 12 /Columns 16 >>", func(b []byte) []byte { return encFlate(pngUp(append([]byte(nil), b...), 16)) }},
+		{"/Filter [/ASCIIHexDecode /FlateDecode]", func(b []byte) []byte { return encHex(encFlate(b)) }},
+	}
+	var kids []string
+	for i, e := range encs {
+		var c bytes.Buffer
+		fmt.Fprintf(&c, "BT /F1 12 Tf 20 20 Td (%s-P%d) Tj ET\n", tag, i+1)
+		for l := 0; l < lines; l++ {
+			fmt.Fprintf(&c, "BT /F1 8 Tf 20 %d Td (%s filler %d of page %d %s) Tj ET\n", 40+l%700, tag, l, i+1, strings.Repeat("=", l%17))
+		}
+		cs := d.AddStream(e.dict, e.f(c.Bytes()))
+		pg := d.Add(fmt.Sprintf("<< /Type /Page /Parent %d 0 R /MediaBox [0 0 400 800] /Contents %d 0 R /Resources << /Font << /F1 %d 0 R >> >> >>", pages, cs, font))
+		kids = append(kids, fmt.Sprintf("%d 0 R", pg))
+	}
+	d.Set(pages, fmt.Sprintf("<< /Type /Pages /Kids [%s] /Count %d >>", strings.Join(kids, " "), len(kids)))
+	d.Set(cat, fmt.Sprintf("<< /Type /Catalog /Pages %d 0 R >>", pages))
+	d.Root = cat
+	return d.Bytes()
+}
+
+// checkFilterDoc: pdfcpu (alone, before any goroutine is started) must decode every page of a filter document to the
+// content that was encoded, otherwise the hand-built encoders are wrong (harness failure, not a verdict).
+func checkFilterDoc(work string, in input, tag string) {
+	p := filepath.Join(work, "check-"+in.name)
+	must(os.WriteFile(p, in.bytes, 0644), "write")
+	ps, err := proj.Pages(p, plainConf())
+	must(err, "filter document "+in.name)
+	for i, pg := range ps {
+		if pg.Marker != fmt.Sprintf("%s-P%d", tag, i+1) || !strings.Contains(pg.Content, fmt.Sprintf("filler 3 of page %d", i+1)) {
+			h.Die("filter document %s page %d does not decode to its content (marker %q)", in.name, i+1, pg.Marker)
+		}
+	}
+	if len(ps) != 7 {
+		h.Die("filter document %s: %d pages", in.name, len(ps))
+	}
 }
 
 type input struct {
@@ -473,11 +618,13 @@ type input struct {
 }
 
 type world struct {
-	inputs  []input // generic inputs
-	second  input   // second file for merge
-	form    input
-	fillJS  []byte
-	fontDir string
+	inputs   []input // generic inputs
+	second   input   // second file for merge
+	form     input
+	fillJS   []byte
+	fontDir  string
+	stampPDF string
+	stampImg string
 }
 
 func plainConf() *model.Configuration {
@@ -504,7 +651,18 @@ func buildWorld(work string) *world {
 		{"test.pdf", rd("pkg/testdata/test.pdf")},
 		{"testRot.pdf", rd("pkg/testdata/testRot.pdf")},
 		{"headless.pdf", headlessDoc()},
+		{"filtA.pdf", filterDoc("FA", 60)},
+		{"filtB.pdf", filterDoc("FB", 90)},
+		{"filtC.pdf", filterDoc("FC", 120)},
 	}
+	for i, tag := range []string{"FA", "FB", "FC"} {
+		checkFilterDoc(work, w.inputs[4+i], tag)
+	}
+	// ONE stamp PDF and ONE stamp image shared (by file name) by all goroutines of the process
+	w.stampPDF = filepath.Join(work, "shared-stamp.pdf")
+	must(os.WriteFile(w.stampPDF, rd("pkg/testdata/testRot.pdf"), 0644), "write stamp pdf")
+	w.stampImg = filepath.Join(work, "shared-stamp.png")
+	must(os.WriteFile(w.stampImg, rd("pkg/testdata/resources/github.png"), 0644), "write stamp image")
 	w.second = input{"simple3.pdf", rawpdf.Simple(3, "C40S")}
 	// fonts for ustamp / fnames / freload: constant directory content
 	stage := stageFonts(work, 3)
@@ -768,6 +926,20 @@ func runTask(w *world, dir string, op string, in input) (res taskRes) {
 		sec := filepath.Join(dir, "second.pdf")
 		must(os.WriteFile(sec, w.second.bytes, 0644), "write second")
 		fileRes(api.MergeCreateFile([]string{inp, sec}, out, false, c), out)
+	case "pdfstamp":
+		fileRes(api.AddPDFWatermarksFile(inp, out, nil, true, w.stampPDF+":1", "scale:0.4 abs, pos:tl, rot:0", c), out)
+	case "imgstamp":
+		fileRes(api.AddImageWatermarksFile(inp, out, nil, false, w.stampImg, "scale:0.3 abs, pos:br, rot:0", c), out)
+	case "content":
+		ps, err := proj.Pages(inp, c)
+		res.Err = errStr(err, dir)
+		if err == nil {
+			var b bytes.Buffer
+			for _, p := range ps {
+				fmt.Fprintf(&b, "%s|%s\n", p.Marker, hexsum([]byte(p.Content)))
+			}
+			res.Strict, res.Proj, res.Bag, res.Pages = hexsum(b.Bytes()), hexsum(b.Bytes()), "", len(ps)
+		}
 	case "rmpages":
 		fileRes(api.RemovePagesFile(inp, out, []string{"2"}, c), out)
 	case "split":
@@ -881,6 +1053,9 @@ func cmdOps() {
 				}
 			}
 			ii := rng.Intn(len(w.inputs))
+			if op == "content" {
+				ii = 4 + rng.Intn(3)
+			}
 			if freeing[op] && rng.Intn(2) == 0 {
 				ii = 3 // object-freeing operations on the repaired input, half of the time
 			}
@@ -889,6 +1064,27 @@ func cmdOps() {
 			}
 			in := w.inputs[ii]
 			tasks[i] = task{op, in, time.Duration(rng.Intn(3000)) * time.Microsecond}
+		}
+		// shared-resource pairs: every round has at least two goroutines that use the SAME stamp file / image / user font, or
+		// that decode DIFFERENT documents with every stream filter, at the same time
+		switch (round + int(seed)) % 4 {
+		case 0:
+			tasks[0].op, tasks[0].in, tasks[1].op, tasks[1].in = "pdfstamp", w.inputs[0], "pdfstamp", w.inputs[1]
+		case 1:
+			tasks[0].op, tasks[0].in, tasks[1].op, tasks[1].in = "content", w.inputs[4], "optimize", w.inputs[5]
+			if n > 2 {
+				tasks[2].op, tasks[2].in = "content", w.inputs[6]
+			}
+		case 2:
+			tasks[0].op, tasks[0].in, tasks[1].op, tasks[1].in = "imgstamp", w.inputs[0], "imgstamp", w.inputs[1]
+		case 3:
+			tasks[0].op, tasks[0].in, tasks[1].op, tasks[1].in = "content", w.inputs[5], "content", w.inputs[6]
+			if n > 3 {
+				tasks[2].op, tasks[2].in, tasks[3].op, tasks[3].in = "pdfstamp", w.inputs[3], "pdfstamp", w.inputs[0]
+			}
+		}
+		if n >= 2 {
+			tasks[0].delay, tasks[1].delay = 0, 0
 		}
 		res := make([]taskRes, n)
 		var wg sync.WaitGroup
